@@ -46,7 +46,7 @@ Definition safe3 (st : net) : Prop := oneway_safe x st /\ ack_safe st.
 (* one step, without a condition on RCV.NXT                                                  *)
 (* ---------------------------------------------------------------------------------------- *)
 Definition Gbase (u0 dk : Z) (fa : fair_aux) (st : net) : Prop :=
-  NI st /\ opts_ok st /\ dl_sync fa st /\ net_now st y - net_now st x = dk /\
+  NI st /\ opts_ok st /\ dl_sync Da fa st /\ net_now st y - net_now st x = dk /\
   una_off (net_get st x) = u0 /\ 0 < txl x st.
 
 Lemma gbase_step u0 dk fa st ev st' :
@@ -706,7 +706,7 @@ Qed.
 Lemma finish u0 dk fa0 st0 ev0 st1 B :
   Gbase u0 dk fa0 st0 -> net_now st0 x <= B -> fair_ev fa0 st0 ev0 -> net_step st0 ev0 = Ok st1 ->
   Qg u0 st1 ->
-  NI st1 /\ opts_ok st1 /\ dl_sync (fa_after Dt Da fa0 ev0 st1) st1 /\ net_now st1 x <= B.
+  NI st1 /\ opts_ok st1 /\ dl_sync Da (fa_after Dt Da fa0 ev0 st1) st1 /\ net_now st1 x <= B.
 Proof.
   intros (HN & Ho & Hsy & _ & Hu & _) HB Hfe H HQ.
   split; [exact (NI_step _ _ _ HN H)|]. split; [exact (opts_step _ _ _ Ho H)|].
@@ -723,14 +723,14 @@ Qed.
    later than W3 after the start, and the rest of the run is again a fair run from st1. *)
 Theorem ack_round : forall evs fa st st' u0,
   0 <= Dt -> 0 <= Dack ->
-  NI st -> opts_ok st -> dl_sync fa st ->
+  NI st -> opts_ok st -> dl_sync Da fa st ->
   run_all safe3 st evs -> fair_run Dt Da fa st evs -> net_run st evs = Ok st' ->
   0 < txl x st -> una_off (net_get st x) = u0 ->
   net_now st x + max_rto_us + 2 * Dt + Dack < net_now st' x ->
   exists pre post fa1 st1,
     evs = pre ++ post /\ net_run st pre = Ok st1 /\ net_run st1 post = Ok st' /\
     run_all safe3 st1 post /\ fair_run Dt Da fa1 st1 post /\
-    NI st1 /\ opts_ok st1 /\ dl_sync fa1 st1 /\
+    NI st1 /\ opts_ok st1 /\ dl_sync Da fa1 st1 /\
     Qg u0 st1 /\ net_now st1 x <= net_now st x + max_rto_us + 2 * Dt + Dack.
 Proof.
   intros evs fa st st' u0 HDt HDk HN Ho Hsy HRun Hfair Hrun Hl Hu Hlate.
@@ -751,7 +751,7 @@ Proof.
             exists pre post fa1 st1,
               evs = pre ++ post /\ net_run st pre = Ok st1 /\ net_run st1 post = Ok st' /\
               run_all safe3 st1 post /\ fair_run Dt Da fa1 st1 post /\
-              NI st1 /\ opts_ok st1 /\ dl_sync fa1 st1 /\
+              NI st1 /\ opts_ok st1 /\ dl_sync Da fa1 st1 /\
               Qg u0 st1 /\ net_now st1 x <= T4).
   { intros pre1 post1 fa0 st0 ev0 st1 E1 E2 E3 E4 E5 HG HB Hfe Hs HQ.
     destruct (finish u0 dk fa0 st0 ev0 st1 T4 HG HB Hfe Hs HQ) as (F1 & F2 & F3 & F4).
@@ -763,7 +763,7 @@ Proof.
             exists pre post fa1 st1,
               evs = pre ++ post /\ net_run st pre = Ok st1 /\ net_run st1 post = Ok st' /\
               run_all safe3 st1 post /\ fair_run Dt Da fa1 st1 post /\
-              NI st1 /\ opts_ok st1 /\ dl_sync fa1 st1 /\
+              NI st1 /\ opts_ok st1 /\ dl_sync Da fa1 st1 /\
               Qg u0 st1 /\ net_now st1 x <= T4).
   { intros pre0 post1 fa1 st1 T E0 R0 HT HK4 HR1 Hf1 Hr1.
     destruct (fair_leads_under_last Dt Da safe3 (K4 u0 dk T4) (fun _ st => Qg u0 st) x T4
@@ -826,7 +826,7 @@ Qed.
 (* the statement of step 3 proper *)
 Theorem ack_eventually_advances_snd_una : forall evs fa st st' u0,
   0 <= Dt -> 0 <= Dack ->
-  NI st -> opts_ok st -> dl_sync fa st ->
+  NI st -> opts_ok st -> dl_sync Da fa st ->
   run_all safe3 st evs -> fair_run Dt Da fa st evs -> net_run st evs = Ok st' ->
   0 < txl x st -> una_off (net_get st x) = u0 ->
   net_now st x + max_rto_us + 2 * Dt + Dack < net_now st' x ->
